@@ -139,6 +139,8 @@ def run_rm_case(ctx, case):
     ds = [k for k in seen["deleted"] if k != ("",)]
     dterm = clist(["(DKey %s)" % clist([cbytes(x) for x in k]) for k in ds] + (["DRoot"] if ("",) in seen["deleted"] else []))
     mcase = dict(case, state=case["state"])
+    if mode == "yes":
+        mcase["prompt"] = sorted(ws0) + [""]              # the prompt also confirms the root entry (key ROOT = ("",))
     inp = "(%s, %s, %s)" % (C.input_term(mcase, enc, links, False, c0, ws0, contents, []), cbool(seen["ric"]), dterm)
     exp = vL([C.outcome_val(out), enc.ws_val(ws1), vL([]), enc.cache_val(c1)])
     dd = ctx.extra.setdefault("input_dimensions", {})
